@@ -650,7 +650,7 @@ int main(int argc, char** argv) {
     int stage = argc > 4 ? atoi(argv[4]) : 0;   // 0: quick family, 1: thorough family
     std::vector<int> Ns = stage ? std::vector<int>{ 4, 6, 8, 10, 12, 14, 16, 18, 20, 24 } : std::vector<int>{ 4, 6, 8, 10, 12 };
     int maxR = stage ? 5 : 4;
-    const int thin = stage ? 5 : 12;
+    const int thin = stage ? 7 : 12;
     for (int N : Ns)
       for (int R = 1; R <= maxR; ++R)
         for (int layout = 0; layout <= 2 * R; ++layout) {      // 0 = GE, else span = layout
